@@ -321,9 +321,27 @@ func c19RoundTrip(t *rapid.T) {
 	if err != nil {
 		t.Fatal(err)
 	}
+	// now and then the store refuses one of the rows: a ToSQL that reports success has stored every row (only then can
+	// reading back reproduce the frame), so success is no possible outcome here
+	refused := -1
+	if rapid.IntRange(0, 7).Draw(t, "storerefuses") == 0 {
+		refused = rapid.IntRange(0, in.N()-1).Draw(t, "refusedrow")
+		m.FailExecAt = refused
+	}
 	var werr error
 	if perr := hx.Safely(func() { werr = der.QF.ToSQL(tx, d.fns()...) }); perr != nil {
 		t.Fatalf("ToSQL panicked: %v\n%s", perr, desc())
+	}
+	if refused >= 0 {
+		if werr == nil && m.Delivered > 0 {
+			t.Fatalf("ToSQL reported success although the store refused the INSERT of row %d (%d statements were sent for %d rows): the stored rows do not reproduce the frame\n%s",
+				refused, len(m.Execs), in.N(), desc())
+		}
+		if werr == nil {
+			t.Fatalf("the INSERT of row %d was never sent (%d statements for %d rows)\n%s", refused, len(m.Execs), in.N(), desc())
+		}
+		evC19.Case(in.N() >= 2, desc, "mode:roundtrip", "store-refuses-a-row")
+		return
 	}
 	if werr != nil {
 		t.Fatalf("ToSQL failed: %v\n%s", werr, desc())
